@@ -457,7 +457,7 @@ class Interp:
             for x in v.items:
                 t = z3.Concat(t, z3.Unit(self.to_val(x)))
             return z3.Function("seq2val", smt.SeqVal, smt.Val)(z3.simplify(t))
-        if isinstance(v, Opaque) and v.kind == "symref":
+        if isinstance(v, Opaque) and "term" in v.attrs:
             return v.attrs["term"]
         if isinstance(v, (Obj, Opaque, Closure, ClassRef, NativeClass, DictObj, SetObj)):
             oid = getattr(v, "oid", None)
